@@ -210,6 +210,12 @@ func (s *Server) newPartition(protoPartition *proto.Partition, recovered bool, c
 	if err != nil {
 		return nil, errors.Wrap(err, "failed to create commit log")
 	}
+	// The readonly flag only lives on the protobuf, so carry it over to the
+	// newly opened log, e.g. when the partition is restored from a snapshot
+	// or replaced on resume.
+	if protoPartition.Readonly {
+		log.SetReadonly(true)
+	}
 
 	replicas := make(map[string]struct{}, len(protoPartition.Replicas))
 	for _, replica := range protoPartition.Replicas {
